@@ -251,8 +251,8 @@ func genWave(r *vlib.R, kind string, groups int) string {
 			n = 3 + r.Intn(3)
 		case x < 18:
 			pat = "cancellead"
-			if r.Chance(2, 3) {
-				zone = "lag"
+			if r.Chance(3, 4) {
+				zone = "cold"
 			}
 			n = 3 + r.Intn(3)
 		case x < 19:
@@ -265,6 +265,9 @@ func genWave(r *vlib.R, kind string, groups int) string {
 		total += n
 	}
 	parts = append(parts, fmt.Sprintf("staged:ok:%d:z", 1+r.Intn(3)))
+	if kind == "n" {
+		parts = append(parts, fmt.Sprintf("cancellead:cold:%d:y", 3+r.Intn(3)))
+	}
 	return strings.Join(parts, ";")
 }
 
